@@ -321,6 +321,9 @@ def tla_to_json_lines(prints, key):
         if v.startswith('"') and v.endswith('"'):
             s = v[1:-1].replace('\\"', '"').replace("\\\\", "\\")
             res.append(json.loads(s))
+    if key == "CASE" and not res:
+        # a design run whose emission sample is too sparse prints nothing to replay: that is a tool error, not a pass
+        raise ToolError("the design run printed no CASE lines (emission sample too sparse for this tier)")
     return res
 
 
